@@ -18,6 +18,7 @@ type RuleDecl struct {
 	Name string `json:"name"`
 	Sal  int64  `json:"sal"`
 	Tpl  string `json:"tpl"`
+	NoSal bool  `json:"nosal,omitempty"` // salience 0 by omitting the salience clause
 	RK   string `json:"rk,omitempty"` // how a "ret" outcome is produced: "" = `v = f(); return v`, "loop" = return of an injected field from inside a for loop that steps it
 	FK   string `json:"fk,omitempty"` // how a "fail" outcome is produced: "" = panicking injected function, else a fault snippet
 }
